@@ -4,7 +4,7 @@ func init() {
 	scenarios["cdp"] = &Scenario{
 		Name: "cdp", NActors: cdpActors, Draw: drawCdpConfig,
 		Setup: func(w *World) { setupCdp(w); w.warmOracle() },
-		Gens:  func(w *World) []OpGen { return cdpGens() },
+		Gens:  func(w *World) []OpGen { return append(cdpGens(), liqGens()...) },
 		PBlock: 220,
 	}
 
@@ -27,6 +27,46 @@ func init() {
 		BatchProbe: []string{"c02.mint_with_fee", "c02.mint_zero_fee", "c02.retire_checked", "c02.fee_paid_from_supply"},
 		Rule: "one case = one seeded simulated run; distinct = distinct digest of (event, outcome) sequence; non-trivial = at least one successful mint and one successful repayment/close were checked against supply, user and collector balance deltas",
 		Assume: []string{"CometBFT, IBC core and wasm VM are stubbed by the simulator"},
+	}
+	props["C09"] = &PropSpec{
+		ID: "C09", Level: "exploration", Scenarios: []string{"cdp"},
+		Oracles:   func(w *World) []Oracle { return []Oracle{&c09Oracle{}} },
+		Quick:     Budget{Runs: 160, MaxEvents: 160},
+		Thorough:  Budget{Runs: 6000, MaxEvents: 500},
+		Essential: []string{"c09.seizure_checked"},
+		BatchProbe: []string{"c09.seizure_checked", "c09.seizure_clearly_unsafe", "liq.vault_seized_by_keeper_msg", "c09.liveness_clock_running"},
+		TweakCfg: func(r *Rng, cfg *Config) {
+			if cfg.Knobs["liq_v2"] == 0 && r.Chance(3, 4) {
+				cfg.Knobs["liq_v2"] = 1
+			}
+			cfg.Knobs["path_mode"] = []int64{pathCrash, pathSaw, pathWalk, pathCrash}[r.Intn(4)]
+			if cfg.Knobs["vol"] < 8 {
+				cfg.Knobs["vol"] = 8 + r.Range(0, 17)
+			}
+		},
+		Rule: "one case = one seeded simulated run with falling/oscillating oracle paths, sweeps of batch size 1..200 and keeper messages on safe and unsafe ids; distinct = distinct digest of (event, outcome) sequence; non-trivial = at least one seizure was checked for safety (exact ratio vs MinCr at the price in force) and for opening exactly one auction",
+		Assume: []string{"liveness is bounded-step: a vault counts only while liquidation+dutch are enabled, both prices active and no breaker/ESM, continuously", "a seizure inside the 18-decimal rounding band is counted, not reported"},
+	}
+	props["C10"] = &PropSpec{
+		ID: "C10", Level: "exploration", Scenarios: []string{"cdp"},
+		Oracles:   func(w *World) []Oracle { return []Oracle{newC10()} },
+		Quick:     Budget{Runs: 160, MaxEvents: 180},
+		Thorough:  Budget{Runs: 6000, MaxEvents: 500},
+		Essential: []string{"c10.bid_checked"},
+		BatchProbe: []string{"c10.bid_checked", "c10.auction_closed_checked", "c10.price_decayed", "c10.auction_restarted", "c10.owner_refunded"},
+		TweakCfg: func(r *Rng, cfg *Config) {
+			if cfg.Knobs["liq_v2"] == 0 {
+				cfg.Knobs["liq_v2"] = 1
+			}
+			cfg.Knobs["dutch_on"] = 1
+			cfg.Knobs["debt_oracle"] = 1
+			cfg.Knobs["path_mode"] = []int64{pathCrash, pathSaw, pathCrash}[r.Intn(3)]
+			if cfg.Knobs["vol"] < 8 {
+				cfg.Knobs["vol"] = 8 + r.Range(0, 17)
+			}
+		},
+		Rule: "one case = one seeded simulated run in which vaults are seized and several bidders place tiny/partial/exact/over-sized dutch bids at PRNG-chosen times relative to price updates and restarts; distinct = distinct digest of (event, outcome) sequence; non-trivial = at least one successful bid was checked against the posted price from balance deltas",
+		Assume: []string{"V2 vault-initiated dutch auctions; lend- and externally-initiated auctions and the v1 generation are covered by the lend/auctions scenarios when built"},
 	}
 	props["C03"] = &PropSpec{
 		ID: "C03", Level: "exploration", Scenarios: []string{"cdp"},
